@@ -106,8 +106,8 @@ def initStateT (s : St) (now : Nat) : St × List Pt :=
     let (d, tr2) := cleanupT now s.cfg r s.link s.dir
     ({ s with dir := d, act := some ⟨n, n, [], false, idx, stamp, size, created⟩ }, tr0 ++ tr1 ++ tr2)
 
-/-- `mount_next_linewriter_if_necessary` (no faults) with its points -/
-def mountNextT (s : St) (a : Active) (r : RotCfg) (force : Bool) (now : Nat) : St × Active × List Pt :=
+/-- `mount_next_linewriter_if_necessary` after the initial flush (no faults) with its points -/
+def mountNextCoreT (s : St) (a : Active) (r : RotCfg) (force : Bool) (now : Nat) : St × Active × List Pt :=
   if !(force || rotationNecessary r a now) then (s, a, [])
   else
     let (s, a, ifx, tr0) : St × Active × Infix × List Pt :=
@@ -141,6 +141,14 @@ def mountNextT (s : St) (a : Active) (r : RotCfg) (force : Bool) (now : Nat) : S
     let p3 := pt "rot.mounted" s
     let (d, tr2) := cleanupT now s.cfg r s.link s.dir
     ({ s with dir := d }, a, tr0 ++ [p1] ++ tr1 ++ [p2, p3] ++ tr2)
+
+/-- `mount_next_linewriter_if_necessary` (no faults) with its points: the initial
+    `current_write.flush()` (no named point), then the rotation proper -/
+def mountNextT (s : St) (a : Active) (r : RotCfg) (force : Bool) (now : Nat) : St × Active × List Pt :=
+  if !(force || rotationNecessary r a now) then (s, a, [])
+  else
+    let (s, a) := flushAct s a
+    mountNextCoreT s a r true now
 
 /-- `State::write_buffer` (no faults) with its points -/
 def writeBufferT (s : St) (b : List Nat) (now : Nat) : St × List Pt :=
